@@ -1,0 +1,210 @@
+//go:build verif
+
+package pbft
+
+import (
+	"runtime"
+	"sync"
+	"time"
+
+	"github.com/dappledger/AnnChain/gemmill/types"
+)
+
+// Stepping shim for the /verif harness (build tag "verif").
+//
+// A ConsensusState that was given a VerifCtl (VerifAttach) runs its *real* receiveRoutine
+// only for as many loop iterations as the harness grants: the harness puts exactly one item
+// on exactly one of the three input channels and calls receiveRoutine synchronously, so the
+// real select -> wal.Save -> handleMsg/handleTimeout path runs on the harness goroutine.
+// ConsensusStates without a VerifCtl (full nodes built with the tag) are not affected.
+
+type VerifTimeout struct {
+	Duration time.Duration
+	Height   int64
+	Round    int64
+	Step     RoundStepType
+	Seq      int
+}
+
+// VerifTicker replaces the wall-clock ticker: it applies the same "only later
+// height/round/step" filter as timeoutTicker and keeps every accepted timeout until the
+// harness decides to fire it.
+type VerifTicker struct {
+	mu      sync.Mutex
+	ch      chan timeoutInfo
+	last    timeoutInfo
+	pending []VerifTimeout
+	seq     int
+}
+
+func (t *VerifTicker) Start() (bool, error)     { return true, nil }
+func (t *VerifTicker) Stop() bool               { return true }
+func (t *VerifTicker) Chan() <-chan timeoutInfo { return t.ch }
+func (t *VerifTicker) ScheduleTimeout(newti timeoutInfo) {
+	t.mu.Lock()
+	defer t.mu.Unlock()
+	ti := t.last
+	if newti.Height < ti.Height {
+		return
+	} else if newti.Height == ti.Height {
+		if newti.Round < ti.Round {
+			return
+		} else if newti.Round == ti.Round {
+			if ti.Step > 0 && newti.Step <= ti.Step {
+				return
+			}
+		}
+	}
+	t.last = newti
+	t.seq++
+	t.pending = append(t.pending, VerifTimeout{newti.Duration, newti.Height, newti.Round, newti.Step, t.seq})
+}
+
+// Pending returns the accepted timeouts that have not been fired yet (oldest first).
+func (t *VerifTicker) Pending() []VerifTimeout {
+	t.mu.Lock()
+	defer t.mu.Unlock()
+	return append([]VerifTimeout(nil), t.pending...)
+}
+
+func (t *VerifTicker) take(i int) (timeoutInfo, bool) {
+	t.mu.Lock()
+	defer t.mu.Unlock()
+	if i < 0 || i >= len(t.pending) {
+		return timeoutInfo{}, false
+	}
+	p := t.pending[i]
+	t.pending = append(t.pending[:i], t.pending[i+1:]...)
+	return timeoutInfo{p.Duration, p.Height, p.Round, p.Step}, true
+}
+
+// DropStale forgets pending timeouts that handleTimeout would ignore anyway.
+func (t *VerifTicker) DropStale(height, round int64, step RoundStepType) {
+	t.mu.Lock()
+	defer t.mu.Unlock()
+	out := t.pending[:0]
+	for _, p := range t.pending {
+		if p.Height != height || p.Round < round || (p.Round == round && p.Step < step) {
+			continue
+		}
+		out = append(out, p)
+	}
+	t.pending = out
+}
+
+type VerifCtl struct {
+	cs     *ConsensusState
+	Ticker *VerifTicker
+	mu     sync.Mutex
+	budget int
+	parked int
+}
+
+var verifCtls sync.Map // *ConsensusState -> *VerifCtl
+
+func verifStop(cs *ConsensusState) bool {
+	v, ok := verifCtls.Load(cs)
+	if !ok {
+		return false
+	}
+	c := v.(*VerifCtl)
+	c.mu.Lock()
+	defer c.mu.Unlock()
+	if c.budget > 0 {
+		c.budget--
+		return false
+	}
+	c.parked++
+	return true
+}
+
+// VerifAttach puts cs under harness control. Call it before cs.Start().
+func VerifAttach(cs *ConsensusState) *VerifCtl {
+	c := &VerifCtl{cs: cs, Ticker: &VerifTicker{ch: make(chan timeoutInfo, 1)}}
+	cs.SetTimeoutTicker(c.Ticker)
+	verifCtls.Store(cs, c)
+	return c
+}
+
+// Parked is the number of receiveRoutine invocations that have returned to the harness.
+func (c *VerifCtl) Parked() int { c.mu.Lock(); defer c.mu.Unlock(); return c.parked }
+
+// WaitParked blocks until at least n receive routines have parked (used after the real
+// OnStart, which spawns "go cs.receiveRoutine(0)").
+func (c *VerifCtl) WaitParked(n int) {
+	for c.Parked() < n {
+		runtime.Gosched()
+		time.Sleep(20 * time.Microsecond)
+	}
+}
+
+func (c *VerifCtl) grant() {
+	c.mu.Lock()
+	c.budget = 1
+	c.mu.Unlock()
+}
+
+// StepPeer delivers one peer message through the real receive routine (one iteration).
+func (c *VerifCtl) StepPeer(msg ConsensusMessage, peerKey string) {
+	c.cs.peerMsgQueue <- msgInfo{msg, peerKey}
+	c.grant()
+	c.cs.receiveRoutine(0)
+}
+
+// StepInternal re-injects one of the node's own messages (taken earlier with DrainInternal).
+func (c *VerifCtl) StepInternal(msg ConsensusMessage) {
+	c.cs.internalMsgQueue <- msgInfo{msg, ""}
+	c.grant()
+	c.cs.receiveRoutine(0)
+}
+
+// StepTimeout fires the i-th pending timeout; false when there is no such timeout.
+func (c *VerifCtl) StepTimeout(i int) bool {
+	ti, ok := c.Ticker.take(i)
+	if !ok {
+		return false
+	}
+	c.Ticker.ch <- ti
+	c.grant()
+	c.cs.receiveRoutine(0)
+	return true
+}
+
+// DrainInternal takes everything the node has queued for itself (its own proposal, block
+// parts and votes) into harness custody, in queue order.
+func (c *VerifCtl) DrainInternal() []ConsensusMessage {
+	var out []ConsensusMessage
+	for {
+		select {
+		case mi := <-c.cs.internalMsgQueue:
+			out = append(out, mi.Msg)
+		default:
+			return out
+		}
+	}
+}
+
+// RoundState returns a copy of the current round state.
+func (c *VerifCtl) RoundState() *RoundState { return c.cs.GetRoundState() }
+
+// State returns the sm.State the consensus state works on.
+func (c *VerifCtl) LastCommitSet() *types.VoteSet { return c.cs.GetRoundState().LastCommit }
+
+// WALRotate forces a rotation of the WAL head file (the production code rotates from a
+// 5-second ticker when the head exceeds its size limit).
+func (c *VerifCtl) WALRotate() {
+	c.cs.wal.group.Flush()
+	c.cs.wal.group.RotateFile()
+}
+
+// WALHeadPath is the path of the WAL head file.
+func (c *VerifCtl) WALHeadPath() string { return c.cs.wal.group.Head.Path }
+
+// Abandon models process death for this object: it will never run or write again.
+func (c *VerifCtl) Abandon() {
+	verifCtls.Delete(c.cs)
+	if c.cs.wal != nil {
+		c.cs.wal.Stop()
+		c.cs.wal.group.Head.Close()
+	}
+}
